@@ -178,6 +178,10 @@ func checkC18(c *Ctx) {
 		"text T {\n    format(\"é{É}ß \\n  {}\\l\\p\\N \\\\ €\", 40)\n}\n",
 		"script S {\n    msgbox(format(\"{A}{B} {C D} {E\", numLines=0, maxLineLength=0))\n}\n",
 		"mapscripts M {\n    MAP_SCRIPT_ON_LOAD {}\n    MAP_SCRIPT_ON_FRAME_TABLE [\n        VAR_A, 0 {}\n    ]\n}\n",
+		// constants that name themselves or each other (what an editor sees mid-typing)
+		"const X = X\nscript S {\n    foo(X)\n    if (var(X) == X) {\n        bar\n    }\n}\n",
+		"const A = B\nconst B = A\nconst C = A\nscript S {\n    foo(A, B, C)\n    switch (var(A)) {\n        case B: x\n    }\n}\nmart M {\n    A\n    B\n}\n",
+		"const A = A + 1\nconst B = ( B )\nscript S {\n    foo(A, B)\n}\n",
 	} {
 		for _, o := range optSets(genAutoVar()) {
 			inputs = append(inputs, robustInput{src, o})
